@@ -1,10 +1,12 @@
 // bounded-pkg: memmetrics
-// bounded-func: memmetrics.(*RTMetrics).ResponseCodeRatio
+// bounded-func: memmetrics: the assumed axiom bucket_sum_is_window_sum (sum over the buckets = sum over the window's slots) as ResponseCodeRatio uses it (the function itself is proved against it)
 // bounded-bound: exhaustive over status codes {199,200,201,399,400,401,499,500,501,599,600} recorded 0..2 times each in 3-code combinations and all ranges with bounds in that set
 package memmetrics
 
-// Bounded stand-in (NOT a proof): the summation loop over the status-code map is outside the contract language
-// (sum over a map iteration of values returned by calls). Checks ResponseCodeRatio against the direct definition.
+// Bounded stand-in (NOT a proof) for an assumed axiom. ResponseCodeRatio itself is proved: its result is the quotient of
+// two sums, over the recorded codes in range, of wcount(counter, now); that wcount - the sum of the increments recorded in
+// the window's slots - equals what Count() adds up over the buckets is the assumed re-indexing axiom. This test compares
+// ResponseCodeRatio with the direct definition over the recorded responses, i.e. it exercises exactly that axiom.
 
 import (
 	"testing"
